@@ -22,6 +22,8 @@ func HarnessC12Pack() {
 			verif.Assert("C12-failure-writing-the-slug-is-reported", err != nil)
 			// C20: metadata is handed out only for a slug that was written completely
 			verif.Assert("C20-no-metadata-for-an-incomplete-slug", err != nil)
+			// C02: a Pack that reports success has written a slug the tree can be restored from
+			verif.Assert("C02-pack-success-means-a-complete-slug", err != nil)
 		} else if err == nil {
 			verif.Reach("pack-ok")
 			verif.Assert("C12-successful-pack-closed-the-streams", envTarClosed())
